@@ -125,8 +125,13 @@ fn search(args: &HiArgs, mode: SearchMode) -> anyhow::Result<bool> {
         searched = true;
         let search_result = match searcher.search(&haystack) {
             Ok(search_result) => search_result,
-            // A broken pipe means graceful termination.
-            Err(err) if err.kind() == std::io::ErrorKind::BrokenPipe => break,
+            // A broken pipe means graceful termination: `main` turns it
+            // into a successful exit. (Just breaking out of the loop would
+            // report "no match" when the pipe closes while the results of
+            // the first matching file are being written.)
+            Err(err) if err.kind() == std::io::ErrorKind::BrokenPipe => {
+                return Err(err.into());
+            }
             Err(err) => {
                 err_message!("{}: {}", haystack.path().display(), err);
                 continue;
